@@ -64,7 +64,9 @@ T_Exit == /\ IsEvent("exit")
                 THEN G("exit.client", cli[t].stage = "idle" /\ E.how = "ready")
                 ELSE IF t \in DOMAIN tmr
                 THEN G("exit.timer", tmr[t].st = "ended" /\ E.how = "ready")
-                ELSE /\ G("exit.loop", t \in Actor /\ act[t].pc \in {"done", "failed"})
+                ELSE /\ G(IF t \in Actor /\ act[t].pc = "idle" /\ act[t].mq = <<>> /\ ~ChanOpen(t) THEN "exit.loop.closed"      \* left without stopped() after the last drop
+                          ELSE IF t \in Actor /\ act[t].pc \in {"stopping", "finishing"} THEN "exit.loop.callback"
+                          ELSE "exit.loop", t \in Actor /\ act[t].pc \in {"done", "failed"})
                      /\ G("exit.how", (E.how = "panic") <=> (act[t].why = "panic"))
              /\ cur' = None /\ yl' = FALSE /\ UNCHANGED sys
 
@@ -127,7 +129,9 @@ T_Cb == /\ IsEvent("cb")
                                                 /\ hst.cb[a][Len(hst.cb[a])][1] = "pb" /\ hst.cb[a][Len(hst.cb[a]) - 1][1] = "fe"
                                                 /\ ~act[a].pbseen)
                           /\ act' = [act EXCEPT ![a].pbseen = TRUE] /\ UNCHANGED <<hnd, cli, rsp, tmr, reg, now, hst, cur, yl>>
-                     ELSE /\ G("cb.pb", \/ act[a].pc = "dequeued" /\ act[a].curp.k \in {"stop", "restart"}
+                     ELSE /\ (act[a].pc # "failed" \/ G("cb.pb.failed", FALSE))     \* the graceful epilogue on a failure path
+                          /\ (~(act[a].pc = "idle" /\ act[a].mq # <<>>) \/ G("cb.pb.undrained", FALSE))   \* stopping with accepted messages still queued
+                          /\ G("cb.pb", \/ act[a].pc = "dequeued" /\ act[a].curp.k \in {"stop", "restart"}
                                         \/ act[a].pc = "idle" /\ act[a].mq = <<>> /\ ~ChanOpen(a))
                           /\ RunLoop(a)
                 [] E.name = "fb" ->
@@ -221,6 +225,19 @@ T_Quiescent == /\ IsEvent("quiescent")
                     /\ G("q.alive", SeqSet(E.alive) = Alive))
                /\ UNCHANGED vars
 
+\* a schedule dictated by a TLC-generated behaviour (direction A) asked for a task that the real executor
+\* did not have runnable / a clock step or cancellation that was not possible: the spec must agree
+T_Unavailable == /\ IsEvent("unavailable")
+                 /\ G("un.free", cur = None)
+                 /\ LET w == E.what IN
+                    IF w = "adv" THEN G("un.adv", Pending = {})
+                    ELSE IF w \in Actor THEN (IF act[w].pc = "idle" THEN G(IF act[w].mq = <<>> THEN "un.loop.closed" ELSE "un.loop.deq", ~CanStep(w))
+                                             ELSE G("un.loop", ~CanStep(w)))
+                    ELSE IF w \in Client THEN G("un." \o cli[w].stage, ~CanStep(w))
+                    ELSE IF w \in DOMAIN tmr THEN G("un.timer", ~CanStep(w))
+                    ELSE TRUE
+                 /\ UNCHANGED vars
+
 \* steps of the running task that no harness code can observe
 IsSilentLoop(a) ==
   \/ IsBrokerType(act[a].ty)                                                  \* the broker is library code: nothing of it is logged
@@ -239,7 +256,7 @@ T_Silent == /\ cur # None /\ ~yl /\ l' = l
 
 TNext == \/ T_Reset \/ T_Pick \/ T_Block \/ T_Exit \/ T_Yield \/ T_Advance \/ T_Cancel
          \/ T_OpBegin \/ T_OpEnd \/ T_Cb \/ T_HBegin \/ T_HEnd \/ T_HAbandon \/ T_Eff \/ T_DefaultNew \/ T_TimerFire
-         \/ T_Quiescent \/ T_Silent
+         \/ T_Quiescent \/ T_Silent \/ T_Unavailable
 TSpec == TInit /\ [][TNext]_tvars
 
 Track == TLCSet(3, IF l > TLCGet(3) THEN l ELSE TLCGet(3))
